@@ -471,13 +471,18 @@ class Samples(BaseSamples):
         self.weights = self.xp.exp(self.log_w)
         self.evidence = self.xp.exp(self.log_evidence)
         n = len(self.x)
-        self.evidence_error = self.xp.sqrt(
-            self.xp.sum((self.weights - self.evidence) ** 2) / (n * (n - 1))
-        )
-        self.log_evidence_error = self.xp.abs(
-            self.evidence_error / self.evidence
-        )
+        # Relative error of the evidence computed from max-shifted weights so
+        # that it stays finite when log-weights are outside the range of exp
         log_w = self.log_w - self.xp.max(self.log_w)
+        scaled_w = self.xp.exp(log_w)
+        scaled_z = self.xp.sum(scaled_w) / n
+        self.log_evidence_error = (
+            self.xp.sqrt(
+                self.xp.sum((scaled_w - scaled_z) ** 2) / (n * (n - 1))
+            )
+            / scaled_z
+        )
+        self.evidence_error = self.log_evidence_error * self.evidence
         self.effective_sample_size = self.xp.exp(
             asarray(logsumexp(log_w) * 2 - logsumexp(log_w * 2), self.xp)
         )
